@@ -9,6 +9,7 @@ import (
 	"net/netip"
 	"strconv"
 	"strings"
+	"time"
 
 	"verifharness/model"
 )
@@ -20,7 +21,7 @@ import (
 // A change made consistently to the library's printer and parser is invisible to a round trip but not
 // to these.
 
-var bespokeText = map[uint16]bool{29: true, 42: true, 50: true, 51: true, 47: true, 62: true, 45: true, 260: true}
+var bespokeText = map[uint16]bool{29: true, 42: true, 50: true, 51: true, 47: true, 62: true, 45: true, 260: true, 46: true, 24: true, 55: true}
 
 // decimalScaled reads a non-negative decimal string ("12", "12.3", "0.05") as an integer scaled by 10^frac.
 func decimalScaled(s string, frac int) (int64, bool) {
@@ -286,6 +287,71 @@ func c05Bespoke(r *model.Rec, rd []model.Token) string {
 			return ""
 		} else if !sameBitmap(bm, want) {
 			return fmt.Sprintf("type list reads as %v, want %v", bm, want)
+		}
+	case 46, 24: // RRSIG / SIG: covered alg labels origttl expiration inception keytag signer signature
+		if len(rd) < 8 { // (an empty signature leaves no ninth token)
+			return fmt.Sprintf("%d tokens", len(rd))
+		}
+		if u("TypeCovered") == 0 || u("TypeCovered") == 65535 {
+			return "" // prints as None / Reserved: recorded finding with keys of its own
+		}
+		if tc, ok := typeFromMnemonic(rd[0].Raw); ok && uint64(tc) != u("TypeCovered") {
+			return fmt.Sprintf("type covered %q reads as %d, want %d", rd[0].Raw, tc, u("TypeCovered"))
+		}
+		for i, name := range map[int]string{1: "Algorithm", 2: "Labels", 3: "OrigTtl", 6: "KeyTag"} {
+			if why := num(rd[i], u(name), name); why != "" {
+				return why
+			}
+		}
+		for i, name := range map[int]string{4: "Expiration", 5: "Inception"} {
+			// RFC 4034 s.3.2: YYYYMMDDHHmmSS in UTC (or a plain number of seconds), a 32-bit serial number
+			var secs uint64
+			if tm, err := time.Parse("20060102150405", rd[i].Raw); err == nil && len(rd[i].Raw) == 14 {
+				secs = uint64(uint32(tm.Unix()))
+			} else if v, err := strconv.ParseUint(rd[i].Raw, 10, 32); err == nil {
+				secs = v
+			} else {
+				return fmt.Sprintf("%s %q is neither YYYYMMDDHHmmSS nor a number", name, rd[i].Raw)
+			}
+			if secs != u(name) {
+				return fmt.Sprintf("%s %q reads as %d, want %d", name, rd[i].Raw, secs, u(name))
+			}
+		}
+		signer, _ := val("SignerName").(model.Name)
+		if n, fq, err := model.ParsePres(rd[7].Raw); err != nil || !fq || !n.Equal(signer) {
+			return fmt.Sprintf("signer name %q does not denote %s", rd[7].Raw, signer.Pres())
+		}
+		var sb strings.Builder
+		for _, t := range rd[8:] {
+			sb.WriteString(t.Raw)
+		}
+		sig, _ := val("Signature").([]byte)
+		if b, err := base64.StdEncoding.DecodeString(sb.String()); err != nil || !bytes.Equal(b, sig) {
+			return fmt.Sprintf("signature %q does not decode to the field (%d octets)", cutS(sb.String()), len(sig))
+		}
+	case 55: // HIP: pk-algorithm hit(hex) public-key(base64) rendezvous-servers...
+		if len(rd) < 3 {
+			return fmt.Sprintf("%d tokens", len(rd))
+		}
+		if why := num(rd[0], u("PublicKeyAlgorithm"), "PublicKeyAlgorithm"); why != "" {
+			return why
+		}
+		hit, _ := val("Hit").([]byte)
+		if b, err := hex.DecodeString(rd[1].Raw); err != nil || !bytes.Equal(b, hit) {
+			return fmt.Sprintf("HIT %q, want %x", rd[1].Raw, hit)
+		}
+		pk, _ := val("PublicKey").([]byte)
+		if b, err := base64.StdEncoding.DecodeString(rd[2].Raw); err != nil || !bytes.Equal(b, pk) {
+			return fmt.Sprintf("public key %q does not decode to the field (%d octets)", cutS(rd[2].Raw), len(pk))
+		}
+		servers, _ := val("RendezvousServers").([]model.Name)
+		if len(rd)-3 != len(servers) {
+			return fmt.Sprintf("%d rendezvous servers in the text, want %d", len(rd)-3, len(servers))
+		}
+		for i, t := range rd[3:] {
+			if n, fq, err := model.ParsePres(t.Raw); err != nil || !fq || !n.Equal(servers[i]) {
+				return fmt.Sprintf("rendezvous server %q does not denote %s", t.Raw, servers[i].Pres())
+			}
 		}
 	case 45, 260: // IPSECKEY: precedence gwtype algorithm gateway key ; AMTRELAY: precedence D type relay
 		gw, _ := val("Gateway").(model.Gateway)
